@@ -562,10 +562,14 @@ impl<'a> Run<'a> {
         }
     }
 
-    fn tick(&mut self, during: &[Rep]) -> CheckResult {
+    /// One maintenance tick. `pending` reports are delivered during the fetch of this tick; if
+    /// the tick does not fetch (idle check, replacement of an expired active path) they stay
+    /// pending for the next one.
+    fn tick(&mut self, pending: &mut Vec<Rep>) -> CheckResult {
         let w = world();
         let due = self.now + self.drv.next_maintain(self.now);
         self.now = due;
+        let during: Vec<Rep> = if due >= self.drv.next_refetch() { std::mem::take(pending) } else { vec![] };
         let now_s = secs(due);
         let whole = now_s.floor() as i64;
         let (mask, fail) = self.serve;
@@ -583,7 +587,7 @@ impl<'a> Run<'a> {
         self.drv.set_fetch_result(result);
         // reports that arrive while the fetch is in flight
         let mut during_els = vec![];
-        for rep in during {
+        for rep in &during {
             let el = self.resolve(rep);
             let kind = Self::kind_of(el, rep.kind);
             self.drv.report_during_next_fetch(due, issue_for(kind, el, rep.pkt));
@@ -720,8 +724,7 @@ fn check_inner(case: &Case, obs: &mut Obs) -> CheckResult {
         match st {
             Step::Serve { mask, fail } => run.serve = (*mask, *fail),
             Step::Tick => {
-                let d = std::mem::take(&mut pending_during);
-                run.tick(&d)?;
+                run.tick(&mut pending_during)?;
             }
             Step::Wait { factor, reliability } => {
                 let s = FACTORS[*factor as usize % FACTORS.len()] * if *reliability { REL_HALF } else { ISSUE_HALF };
@@ -729,8 +732,7 @@ fn check_inner(case: &Case, obs: &mut Obs) -> CheckResult {
                 // maintenance falls due inside the wait
                 let mut guard = 0;
                 while run.now + run.drv.next_maintain(run.now) <= target {
-                    let d = std::mem::take(&mut pending_during);
-                    run.tick(&d)?;
+                    run.tick(&mut pending_during)?;
                     guard += 1;
                     if guard > 10_000 {
                         return Err(Fail::new("harness:too-many-ticks", "wait loop"));
